@@ -68,10 +68,10 @@ func fsErr(err error) string {
 // Runner interprets the Fs-level script language of DESIGN.md §3.1 on any afero stack.
 type Runner struct {
 	Fs  afero.Fs
-	Src afero.Fs // optional: lines prefixed "src." act on it (same handle table)
+	Src afero.Fs            // optional: lines prefixed "src." act on it (same handle table)
 	Alt map[string]afero.Fs // optional: other prefixes ("b", "l", …) -> filesystem
 	H   []afero.File
-	T0 time.Time // script times are offsets (seconds) from T0
+	T0  time.Time // script times are offsets (seconds) from T0
 }
 
 func NewRunner(fs afero.Fs) *Runner { return &Runner{Fs: fs, T0: time.Unix(1_700_000_000, 0)} }
